@@ -8,6 +8,7 @@
  * changes), each checking its own expectations - isolation under real concurrency. */
 #include "common.h"
 #include <pthread.h>
+#include <time.h>
 #include <semaphore.h>
 
 static const char *g_cfg = "plain"; static int g_tier;
@@ -147,6 +148,39 @@ static void *conc_main(void *arg) {
     return NULL;
 }
 
+/* ---- phase 4: a violation on thread B while thread A is still inside its handler (deterministic: A's handler waits for B) */
+static volatile int g_a_inside, g_b_done; static __thread int t_blocking_role;
+static void blocking_probe(const char *m, void *p, errno_t e) {
+    (void)m; (void)p; (void)e; t_count++; t_last_id = 100;
+    if (t_blocking_role == 1) { g_a_inside = 1; for (long spin = 0; !g_b_done && spin < 2000; spin++) { struct timespec ts = {0, 1000 * 1000}; nanosleep(&ts, NULL); } }
+}
+typedef struct { int kind; int b_count; int b_id; } p4_t;
+static void *p4_a(void *arg) { p4_t *c = arg; char d[4] = "abc"; t_blocking_role = 1;
+    if (c->kind) thrd_set_mem_constraint_handler_s(blocking_probe); else thrd_set_str_constraint_handler_s(blocking_probe);
+    if (c->kind) _memcpy_s_chk(NULL, 1, d, 1, BOS_UNKNOWN, BOS_UNKNOWN); else _strcpy_s_chk(NULL, 1, d, BOS_UNKNOWN);
+    return NULL; }
+static void *p4_b(void *arg) { p4_t *c = arg; char d[4] = "abc"; t_blocking_role = 2;
+    if (c->kind) thrd_set_mem_constraint_handler_s(PROBE[1][3]); else thrd_set_str_constraint_handler_s(PROBE[0][3]);
+    for (long spin = 0; !g_a_inside && spin < 2000; spin++) { struct timespec ts = {0, 1000 * 1000}; nanosleep(&ts, NULL); }
+    t_count = 0; t_last_id = -9;
+    if (c->kind) _memcpy_s_chk(NULL, 1, d, 1, BOS_UNKNOWN, BOS_UNKNOWN); else _strcpy_s_chk(NULL, 1, d, BOS_UNKNOWN);
+    c->b_count = t_count; c->b_id = t_last_id; g_b_done = 1;
+    return NULL; }
+static unsigned long long n_p4;
+static void phase4(void) {
+    for (int rep = 0; rep < (g_tier ? 50 : 10); rep++) for (int kind = 0; kind < 2; kind++) {
+        p4_t c = {kind, -1, -1}; pthread_t a, b; g_a_inside = 0; g_b_done = 0;
+        pthread_create(&a, NULL, p4_a, &c); pthread_create(&b, NULL, p4_b, &c); pthread_join(b, NULL); pthread_join(a, NULL);
+        n_p4++;
+        if (!g_a_inside) continue;      /* A's handler never ran: inconclusive repetition (counted below) */
+        if (c.b_count != 1 || c.b_id != 3) { op_t o = {OP_VIOL, kind, 0, 0, 0}; char obs[200];
+            snprintf(g_hist, sizeof g_hist, "(thread A inside its %s handler; thread B, with its own thread-local handler 3, violates)", kind ? "memory" : "string");
+            snprintf(obs, sizeof obs, "thread B's violation ran %d handlers (last id %d) while another thread was inside its handler; expected exactly its own handler 3", c.b_count, c.b_id);
+            vio("handler-not-invoked-while-another-thread-is-in-its-handler", &o, obs); return; }
+        {   char bb[64]; snprintf(bb, sizeof bb, "p4;%d;%d", kind, c.b_count); distinct_add(hash_str(bb)); }
+    }
+}
+
 static void gen_random_history(rng_t *g, int len) {
     int nthreads = 1; g_hist[0] = 0; n_hist++;
     for (int i = 0; i < len; i++) {
@@ -197,6 +231,7 @@ int main(int argc, char **argv) {
         for (int r = 0; r < (g_tier ? 5 : 2); r++) { for (int i = 0; i < nt; i++) pthread_create(&th[i], NULL, conc_main, (void *)(intptr_t)(i + 1)); for (int i = 0; i < nt; i++) pthread_join(th[i], NULL); }
         if (g_conc_fail) { op_t o = {g_conc_fail == 1 ? OP_SETL : OP_VIOL, 0, 0, 0, 0}; snprintf(g_hist, sizeof g_hist, "(concurrent phase, 8 threads)"); vio(g_conc_fail == 1 ? "registration-return-wrong-under-concurrency" : "thread-local-handler-leaks-between-threads", &o, g_conc_obs); }
     }
+    phase4(); emit_counter("handler_in_progress_probes", n_p4);
     emit_counter("histories", n_hist); emit_counter("operations", n_ops); emit_counter("violating_calls_checked", n_viol); emit_counter("registrations_checked", n_reg);
     emit_counter("threads_created", n_create); emit_counter("inheritance_observed", n_inherited); emit_counter("no_inheritance_observed", n_not_inherited); emit_counter("concurrent_ops", n_conc_ops);
     {   char s[400]; snprintf(s, sizeof s, "{\"last_history\":\"%.300s\"}", g_hist); emit_sample(s); }
